@@ -27,25 +27,27 @@ import (
 )
 
 const (
-	c11WorkerMem     = 1 << 30 // RLIMIT_AS of a worker
+	c11WorkerMem     = 3 << 29 // RLIMIT_AS of a worker: 1.5 GiB (the Go runtime alone needs most of 1 GiB of address space)
 	c11CallTimeout   = 6 * time.Second
 	c11RunawayInUse  = 192 << 20 // heap in use at an out-of-memory death above which it was not one hostile request
 	c11MaxInputBytes = 1 << 20
+	c11RunawayAfter  = 2 * time.Second
 )
 
 // c11Outcome is the result of one case.
 type c11Outcome struct {
-	D     string      `json:"d"`            // decode phase: ok | err | panic | timeout | oom | runaway | fatal
-	DSite string      `json:"ds,omitempty"` // panic: top frame inside the repository
-	DMsg  string      `json:"dm,omitempty"` // panic/fatal message
-	A     string      `json:"a,omitempty"`  // accessor phase: ok | panic | timeout | "" (nothing decoded)
-	ASite string      `json:"as,omitempty"`
-	AMsg  string      `json:"am,omitempty"`
-	Canon string      `json:"c,omitempty"`
-	N     int         `json:"n,omitempty"` // values decoded without error
-	T     int64       `json:"t,omitempty"` // wall time of the case in the worker, microseconds
-	Solo  bool        `json:"solo,omitempty"`
-	More  [][2]string `json:"more,omitempty"` // further accessor panics of the same sweep (site, message)
+	D      string      `json:"d"`            // decode phase: ok | err | panic | timeout | oom | runaway | fatal
+	DSite  string      `json:"ds,omitempty"` // panic: top frame inside the repository
+	DMsg   string      `json:"dm,omitempty"` // panic/fatal message
+	A      string      `json:"a,omitempty"`  // accessor phase: ok | panic | timeout | "" (nothing decoded)
+	ASite  string      `json:"as,omitempty"`
+	AMsg   string      `json:"am,omitempty"`
+	Canon  string      `json:"c,omitempty"`
+	N      int         `json:"n,omitempty"` // values decoded without error
+	T      int64       `json:"t,omitempty"` // wall time of the case in the worker, microseconds
+	Solo   bool        `json:"solo,omitempty"`
+	SCanon string      `json:"sc,omitempty"`   // canonical value computed by the accessor sweep
+	More   [][2]string `json:"more,omitempty"` // further accessor panics of the same sweep (site, message)
 }
 
 func init() { checks["C11-worker"] = c11WorkerMain }
@@ -67,15 +69,21 @@ func c11RunCase(dec *c11Decoder, in []byte) (out c11Outcome, poisoned bool) {
 		return out, false
 	}
 	c11Caught = nil
+	c11SweepCanon = ""
 	o = guardTimeout(c11CallTimeout, v.sweep)
 	switch {
 	case o.timedOut:
 		out.A = "timeout"
 		return out, true
 	case o.panicked:
-		c11Caught = append(c11Caught, c11CaughtPanic{c11Site(o.stack), o.panicVal})
+		site := c11Site(o.stack)
+		if strings.Contains(o.panicVal, "fmt swallowed") {
+			site = "fmt-swallowed:" + strings.SplitN(o.panicVal, ":", 2)[0]
+		}
+		c11Caught = append(c11Caught, c11CaughtPanic{site, o.panicVal})
 	}
 	out.A = "ok"
+	out.SCanon = c11SweepCanon
 	seen := map[string]bool{}
 	for _, cp := range c11Caught {
 		k := cp.site + "|" + c11PanicClass(cp.msg)
@@ -198,6 +206,7 @@ type c11Case struct {
 	Decoder string `json:"decoder"`
 	Hex     string `json:"hex"`
 	Mut     string `json:"mut,omitempty"` // how the input was derived (histogram only)
+	Raw     string `json:"raw,omitempty"` // the bytes before wrapping (bam.parseAux: the aux block)
 }
 
 func (k c11Case) bytes() []byte {
@@ -218,13 +227,15 @@ type c11Pool struct {
 var c11OOMRe = regexp.MustCompile(`cannot allocate (\d+)-byte block \((\d+) in use\)`)
 
 // classifyDeath turns the stderr of a dead worker into an outcome for the case it was running.
-func c11ClassifyDeath(stderr string) c11Outcome {
+func c11ClassifyDeath(stderr string, elapsed time.Duration) c11Outcome {
 	switch {
 	case strings.Contains(stderr, "out of memory") || strings.Contains(stderr, "cannot allocate memory") ||
 		strings.Contains(stderr, "failed to allocate"):
 		if m := c11OOMRe.FindStringSubmatch(stderr); m != nil {
 			inUse, _ := strconv.ParseInt(m[2], 10, 64)
-			if inUse >= c11RunawayInUse {
+			// one hostile length field is refused at once; memory that grew for seconds before the
+			// refusal is a loop that allocates without bound
+			if inUse >= c11RunawayInUse && elapsed >= c11RunawayAfter {
 				return c11Outcome{D: "runaway", DSite: c11FatalFrame(stderr), DMsg: "out of memory after growing to " + m[2] + " bytes in use (request " + m[1] + ")"}
 			}
 			return c11Outcome{D: "oom", DMsg: "request of " + m[1] + " bytes"}
@@ -332,6 +343,7 @@ func (p *c11Pool) runOnce(cases []c11Case, outs []c11Outcome) (int, *c11Death) {
 	}()
 	rd := bufio.NewReaderSize(stdout, 1<<20)
 	done := 0
+	lastAnswer := time.Now()
 	timedOut := false
 	for done < len(cases) {
 		type rl struct {
@@ -361,6 +373,7 @@ func (p *c11Pool) runOnce(cases []c11Case, outs []c11Outcome) (int, *c11Death) {
 		}
 		outs[done] = o
 		done++
+		lastAnswer = time.Now()
 		if o.D == "timeout" || o.A == "timeout" {
 			// the worker exits after answering
 			io.Copy(io.Discard, rd)
@@ -383,7 +396,7 @@ func (p *c11Pool) runOnce(cases []c11Case, outs []c11Outcome) (int, *c11Death) {
 	if timedOut {
 		return done, &c11Death{out: c11Outcome{D: "timeout", DMsg: "worker killed by the parent watchdog"}}
 	}
-	return done, &c11Death{out: c11ClassifyDeath(errb.String())}
+	return done, &c11Death{out: c11ClassifyDeath(errb.String(), time.Since(lastAnswer))}
 }
 
 // runAll distributes the cases over p.n workers (deterministic result order).
